@@ -406,6 +406,9 @@ def special_shapes():
     P = mk_struct('Zp', [('a', 'plain', scalar('u16')), ('b', 'plain', scalar('u8'))])
     out.append(('lim_struct', mk_struct('Zls', [('h', 'plain', scalar('u8')), ('x', ('limited', 3), P), ('t', 'plain', scalar('u32'))])))
     out.append(('only_opt', mk_struct('Zoo', [('o', 'opt', scalar('u8'))])))
+    out.append(('bytes_lim', mk_struct('Zbl', [('h', 'plain', scalar('u16')), ('name', ('limited', 5), BYTE), ('t', 'plain', scalar('u8'))])))
+    out.append(('bytes_all', mk_struct('Zba', [('f', ('fixed', 3), BYTE), ('l', ('limited', 4), BYTE), ('d', 'dyn', BYTE),
+                                               ('g', 'greedy', BYTE)])))
     U1 = mk_union('Zu1', [(1, 'a', scalar('u8')), (2, 'b', scalar('u32'))])
     U2 = mk_union('Zu2', [(5, 'u', U1), (9, 'w', scalar('u64'))])
     out.append(('union_of_union', mk_struct('Zuu', [('p', 'plain', scalar('u8')), ('u', 'plain', U2), ('q', 'plain', scalar('u8'))])))
